@@ -6,9 +6,11 @@ open Juno.C12
 
 /-! ## non-vacuity of the abstract system: a well-formed environment and a run with a decision -/
 
-/-- four validators of power 1, validator 3 Byzantine, validator 0 proposes, everything valid -/
+/-- four validators of power 1, validator 3 Byzantine, validator 0 proposes, everything valid;
+address 9 — not a validator — plays the sync pseudo-sender: nobody runs a machine under it (it is
+declared Byzantine, power 0 in the validator set) -/
 def E4 : AEnv :=
-  { vals := [0, 1, 2, 3], power := fun _ a => if a < 4 then 1 else 0, byz := fun a => a = 3,
+  { vals := [0, 1, 2, 3], power := fun _ a => if a < 4 then 1 else 0, byz := fun a => a = 3 ∨ a = 9,
     proposer := fun _ _ => 0, valid := fun _ => true }
 
 theorem wsumL_cons_ge (a : Addr) (t : List Addr) (pw : Addr → Nat) (P : Addr → Prop) :
@@ -28,7 +30,7 @@ theorem E4_wf : E4.WF := by
     rw [E4_N]
     simp only [AEnv.wsum, E4]
     rw [wsumL_cons_neg _ _ _ _ (by decide), wsumL_cons_neg _ _ _ _ (by decide),
-      wsumL_cons_neg _ _ _ _ (by decide), wsumL_cons_pos (P := fun a => a = 3) (h := rfl), wsumL_nil]
+      wsumL_cons_neg _ _ _ _ (by decide), wsumL_cons_pos (P := fun a => a = 3 ∨ a = 9) (h := Or.inl rfl), wsumL_nil]
     decide
 
 /-- validators 0, 1 and 3 make a quorum -/
@@ -56,9 +58,9 @@ open Juno.C12
 and 1 start, 0 proposes, both prevote and (seeing a polka that includes the Byzantine validator 3)
 lock and precommit, then 0 commits. -/
 theorem E4_run_decides : ∃ s, Reach E4 (fun _ => 0) s ∧ s.hist.decision 0 0 0 8 := by
-  have nb0 : ¬ E4.byz 0 := by show ¬ (0 = 3); decide
-  have nb1 : ¬ E4.byz 1 := by show ¬ (1 = 3); decide
-  have b3 : E4.byz 3 := rfl
+  have nb0 : ¬ E4.byz 0 := by show ¬ (0 = 3 ∨ 0 = 9); decide
+  have nb1 : ¬ E4.byz 1 := by show ¬ (1 = 3 ∨ 1 = 9); decide
+  have b3 : E4.byz 3 := Or.inl rfl
   have r1 := Reach.step (Reach.init (E := E4) (h0 := fun _ => 0)) (Step.start _ 0 _ 0 nb0 rfl rfl (by decide))
   have r2 := Reach.step r1 (Step.start _ 1 _ 0 nb1 rfl rfl (by decide))
   have r3 := Reach.step r2 (Step.propose _ 0 _ 8 nb0 rfl)
@@ -78,13 +80,16 @@ end Juno.C12.Abs
 namespace Juno.C12
 open Juno.C12.Abs
 
-/-- an executable environment matching `E4` -/
+/-- an executable environment matching `E4`, of the shape of the repository's `mockValidators`
+(since b29aadf): power 1 for the four members, 0 for everybody else — except the sync pseudo-sender
+(address 9 here), which has power N = 4 -/
 def env4 : Env :=
-  { totalPower := fun _ => 4, power := fun _ a => if a < 4 then 1 else 0, proposer := fun _ _ => 0,
+  { totalPower := fun _ => 4, power := fun _ a => if a = 9 then 4 else if a < 4 then 1 else 0, proposer := fun _ _ => 0,
     valid := fun _ => true, appValue := fun k => 8 + 4 * k }
 
-theorem env4_ok : EnvOK E4 env4 := by
-  refine ⟨rfl, rfl, fun _ _ => rfl, fun h => by rw [E4_N]; rfl, fun h => by rw [E4_N]; decide, by decide, ?_⟩
+/-- `env4` agrees with `E4` on every address except the excluded pseudo-sender -/
+theorem env4_ok : EnvOK E4 env4 (fun a => a = 9) := by
+  refine ⟨rfl, rfl, fun _ a hx => by show (if a = 9 then 4 else if a < 4 then 1 else 0) = _; rw [if_neg hx]; rfl, fun h => by rw [E4_N]; rfl, fun h => by rw [E4_N]; decide, by decide, ?_⟩
   intro h a ha
   simp only [E4, List.mem_cons, List.not_mem_nil, or_false, not_or] at ha
   show (if a < 4 then 1 else 0) = 0
